@@ -1058,6 +1058,88 @@ let suite_conf t v =
   v.nontrivial <- ns >= 2
   end
 
+
+(* ============================ suite H : HTTP routes (C14, C15) =============== *)
+let split_on (seps : char list) (s : string) : string list =
+  let buf = Buffer.create 16 and out = ref [] in
+  String.iter (fun c -> if List.mem c seps then (out := Buffer.contents buf :: !out; Buffer.clear buf) else Buffer.add_char buf c) s;
+  List.rev (Buffer.contents buf :: !out)
+let segz (s : string) = digits_of_string s
+
+(* strings.Split(name, sep) + filepath.Join: non-empty elements joined by "/" (library glue) *)
+let go_split_join (name : string) (sep : string) : string =
+  if sep = "" then name else begin
+    let rec split s acc =
+      match (try Some (Str.search_forward (Str.regexp_string sep) s 0) with Not_found -> None) with
+      | None -> List.rev (s :: acc)
+      | Some i -> split (String.sub s (i + String.length sep) (String.length s - i - String.length sep)) (String.sub s 0 i :: acc) in
+    let els = List.filter (fun e -> e <> "") (split name []) in
+    let joined = String.concat "/" els in
+    if joined = "" then "" else
+    (* Clean *)
+    let abs = joined.[0] = '/' in
+    let segs = List.map segz (split_on ['/'] joined) in
+    let cl = if abs then M.clean_abs [] segs else M.clean_rel [] segs in
+    let body = String.concat "/" (List.map string_of_name cl) in
+    if abs then "/" ^ body else if body = "" then "." else body
+  end
+
+let local_name (s : string) : bool =
+  let abs = String.length s > 0 && s.[0] = '/' in
+  M.is_local abs (s <> "") (List.map segz (split_on ['/'] s))
+
+let suite_http t v =
+  let route = next t in
+  let srcsv = ni t in let keysv = ni t in
+  let source = str_of_hex (next t) in let key = str_of_hex (next t) in
+  let name = str_of_hex (next t) in let prev = str_of_hex (next t) in let renamed = str_of_hex (next t) in
+  let sep = str_of_hex (next t) in
+  let exists = ni t in
+  expect t "=";
+  let status = ni t in let outside = nb t in let changed = nb t in
+  let sources = if srcsv = 0 then [] else [segz "good"; segz "oth/er"] in
+  let keys = if keysv = 0 then [] else [segz "k1"; segz "k2"] in
+  let cs = source <> "" && String.for_all (fun c -> (c >= 'a' && c <= 'z') || (c >= '0' && c <= '9') || c = '.' || c = '-' || c = '/') source in
+  let ssegs = List.map segz (split_on ['/'; '\\'] source) in
+  let decision = int_of_z (M.handle_validate sources keys (segz source) (segz key) ssegs cs true) in
+  let static = (route = "sget" || route = "sdel") in
+  let refused = status >= 300 in
+  (* ---- oracles ---- *)
+  if outside then oracle v "touched_file_outside_configured_directories" false;
+  if status <> -1 then begin
+    if refused && changed then oracle v "refused_request_had_effect" false;
+    if decision <> 0 && not refused then oracle v "unauthorised_request_processed" false
+  end;
+  (* ---- comparison with the model's decision ---- *)
+  if status <> -1 then begin
+    if decision <> 0 then begin
+      (* the mux may redirect an unclean static path before the handler runs *)
+      if status <> decision && not (static && status >= 301 && status <= 308) then diff v "refusal-code"
+    end else begin
+      match route with
+      | "data" | "recovery" ->
+          let n' = go_split_join name sep and p' = go_split_join prev sep in
+          let ok = local_name n' && (p' = "" || local_name p') && (renamed = "" || local_name renamed) in
+          if ok then (if refused && status <> 206 && status <> 500 then diff v "local-name-refused")
+          else if status <> 400 then diff v "escaping-name-not-refused"
+      | "validate" ->
+          let n' = go_split_join name sep in
+          if local_name n' then (if status <> 200 then diff v "local-name-refused")
+          else if status <> 400 then diff v "escaping-name-not-refused"
+      | "partials" -> if status <> 200 then diff v "partials-status"
+      | _ ->
+          (* static: only plain, safe names under a safe source can succeed *)
+          let safe_seg s = s <> "" && String.for_all (fun c -> (c >= 'a' && c <= 'z') || (c >= 'A' && c <= 'Z') || (c >= '0' && c <= '9') || c = '.' || c = '_' || c = '-') s in
+          (* repeated, leading and trailing slashes are normalised away by the server *)
+          let segs = List.filter (fun s -> s <> "") (split_on ['/'] name) in
+          let plain = List.for_all (fun s -> safe_seg s && s <> "." && s <> "..") segs in
+          if status >= 200 && status < 300 && not (plain && safe_seg source && (exists > 0 || segs = [])) then
+            diff v "static-served-unsafe-path"
+    end
+  end;
+  v.cls <- "D";
+  v.nontrivial <- decision <> 0 || String.contains name '.' || String.contains source '.'
+
 (* ============================ dispatch ====================================== *)
 let run_line line =
   let t = mk line in
@@ -1072,6 +1154,7 @@ let run_line line =
       | "T" -> suite_send t v
       | "E" -> suite_e2e t v
       | "F" -> suite_conf t v
+      | "H" -> suite_http t v
       | "LC" -> suite_log_conc t v
       | s -> raise (Malformed ("unknown suite " ^ s)))
    with
